@@ -117,7 +117,36 @@ def check_guards(ctx, cfg):
                         ot = a.operand_ty(op)
                         if av[0] == "P" and av[1] == ("local", 1) and ot is not None and ot.get("k") == "ref" and ot["mut"]:
                             e_ok = False
-        ctx.ob(rule, key, ok and src_ok and e_ok, "fill reached only under v.len() == N: %s; source is v.into_iter() (elements in order, C07.Z): %s; Err only under len != N with the Vec untouched: %s" % (ok, src_ok, e_ok), at=b["at"], cfg=cfg)
+        form = "source is v.into_iter() (elements in order, C07.Z): %s" % src_ok
+        if not ext:
+            # bulk-move form: under len == N the Vec is emptied (set_len(0): it will only free its buffer) and its N elements are copied, from the
+            # start of its buffer, over the whole of an uninitialised array that is then returned; nothing that can unwind runs in between
+            cl = Classifier(ctx.db(cfg))
+            cps = [c for c in a.calls if c.fn in ("core::ptr::copy_nonoverlapping", "core::ptr::copy")]
+            sls = [c for c in a.calls if c.fn == "alloc::vec::Vec::<T, A>::set_len" and c.args[0][0] == "P" and c.args[0][1] == ("local", 1)]
+            aps = [c for c in a.calls if c.fn in ("alloc::vec::Vec::<T, A>::as_ptr", "alloc::vec::Vec::<T, A>::as_mut_ptr") and c.args[0][0] == "P" and c.args[0][1] == ("local", 1)]
+            ok = src_ok = False
+            if len(cps) == 1 and len(sls) == 1 and len(aps) == 1 and len(lens) == 1:
+                cp, sl, ap = cps[0], sls[0], aps[0]
+                guard = all(a.prove(c.facts, "Eq", lens[0].ret[1], N) for c in (cp, sl))
+                zero = sl.args[1] == ("I", Poly.const(0))
+                from_start = cp.args[0] == ap.ret
+                dst = cp.args[1]
+                dty = tstr(a.local_ty(dst[1][1])) if dst[0] == "P" and dst[1][0] == "local" else ""
+                whole = dst[0] == "P" and not dst[2].t and "GenericArray<" in dty and "MaybeUninit<" in dty and a.as_poly(cp.args[2]) == N
+                ai = [c for c in a.calls if c.fn.endswith("::assume_init")]
+                ret_ok = bool(oks) and len(ai) == 1 and all(g["ops"][0] == ai[0].ret for g in oks)
+                foreign = [c.fn for c in a.calls if cl.classify(c, b) == "foreign" and (a.dominates(cp.bb, c.bb) or a.dominates(sl.bb, c.bb)) and c not in (cp, sl)
+                           and not any(a.dominates(g["site"][0], c.bb) for g in oks)]
+                ok = guard
+                src_ok = zero and from_start and whole and ret_ok and not foreign
+                form = ("bulk move: Vec emptied by set_len(0): %s; N elements copied from the start of its buffer: %s over the whole uninitialised array: %s, which is what is returned: %s; "
+                        "nothing that can unwind between emptying, copying and returning: %s" % (zero, from_start, whole, ret_ok, (not foreign) or sorted(set(foreign))))
+            else:
+                form = "neither builder.extend(v.into_iter()) nor a set_len(0) + bulk copy found"
+            # on the Err paths the Vec must still be untouched: the set_len may not dominate them
+            e_ok = bool(errs) and bool(lens) and all(a.prove(e["facts"], "Ne", lens[0].ret[1], N) for e in errs) and not any(a.dominates(c.bb, e["site"][0]) for e in errs for c in sls + cps)
+        ctx.ob(rule, key, ok and src_ok and e_ok, "fill reached only under v.len() == N: %s; %s; Err only under len != N with the Vec untouched: %s" % (ok, form, e_ok), at=b["at"], cfg=cfg)
     # delegations
     for key, chain in ((K + "try_from_vec", ["alloc::vec::Vec::<T, A>::into_boxed_slice", K + "try_from_boxed_slice"]),
                        (K + "into_vec", [K + "into_boxed_slice", ("core::convert::From::from", "alloc::slice::<impl [T]>::into_vec", "core::convert::Into::into")]),
